@@ -5,6 +5,7 @@ package verifharness
 // codes in order, the stored parameter strings afterwards, and the PATCH requests.
 
 import (
+	"bytes"
 	"context"
 	"encoding/base64"
 	"encoding/json"
@@ -13,6 +14,7 @@ import (
 	"net/http/httptest"
 	"net/url"
 	"os"
+	"reflect"
 	"strconv"
 	"strings"
 	"sync"
@@ -249,8 +251,15 @@ func replayPubCase(c *pubCase, idx int) (diff string) {
 			targets = append(targets, publish.Target{Zone: t.Zone + ".example", Name: recName(t.Name)})
 		}
 		ctx, cancel := context.WithTimeout(context.Background(), 20*time.Second)
+		cfgBefore, targetsBefore := bytes.Clone(pubCfg[call.Cfg]), append([]publish.Target{}, targets...)
 		res := cf.PublishECH(ctx, targets, pubCfg[call.Cfg])
 		cancel()
+		if !bytes.Equal(cfgBefore, pubCfg[call.Cfg]) || !reflect.DeepEqual(targetsBefore, append([]publish.Target{}, targets...)) {
+			return fmt.Sprintf("call %d: PublishECH modified the config list or the target list it was given", ci+1)
+		}
+		if len(res) != len(targets) {
+			return fmt.Sprintf("call %d: %d results for %d targets", ci+1, len(res), len(targets))
+		}
 		var got []string
 		for _, r := range res {
 			got = append(got, codes[r.Code])
